@@ -86,6 +86,16 @@ check("C02", "TLC model checking of Lexer.tla (character level) and AhbSplit.tla
       "Trusted: TLC; the class representatives (every class has several, 'bad' has 35 incl. NBSP, VT, other Unicode digits/letters); the "
       "AHB-only parser is deliberately not required to reject malformed condition parts (DESIGN 5/C02).", "DESIGN.md 3.2, 3.3, 5/C02")
 
+check("C09", "TLC model checking of AhbSplit.tla (split) and AhbEval.tla (selection) + replay of every accepted token sequence and every part list "
+      "through the resolver and evaluate_ahb_expression_tree, compared with the spec and with the deciding part's own evaluation",
+      "TLC enumerates every viable prefix of the AHB-expression language up to 8 (thorough 10) tokens and every part list up to 3 (4) parts "
+      "with every indicator / bare-or-conditioned / four-valued state combination, proving losslessness of the split and the "
+      "first-fulfilled-else-last selection (incl. irrelevance of later parts); every accepted sequence is parsed by the real resolver in "
+      "plain and seeded spellings and must give the spec's parts; every part list is realised as an expression with seeded condition "
+      "shapes and evaluated: indicator and outcome must be the spec's deciding part, and outcome/hints/format expression/format "
+      "result must equal the real evaluation of that part's condition on its own; bare indicators are re-evaluated between cases.",
+      "Trusted: TLC, renderer, projection. requirement_is_conditional compared only for single parts (DESIGN 6.6a).", "DESIGN.md 3.3, 3.6, 5/C09")
+
 NOT_BUILT = "check under construction in this session (specification module planned in DESIGN.md section 3); not claimed yet"
 
 
